@@ -251,6 +251,18 @@ func (rw *rewriter) file(f *ast.File) {
 		if stmt != nil {
 			fd.Body.List = append([]ast.Stmt{stmt}, fd.Body.List...)
 		}
+		// lib/value/pool.go: `func getT() *T { return pool.Get().(*T) }` -> the object handed out is reported
+		if rw.rel == "lib/value/pool.go" && fd.Recv == nil && strings.HasPrefix(fd.Name.Name, "get") && len(fd.Body.List) == 1 {
+			if ret, ok := fd.Body.List[0].(*ast.ReturnStmt); ok && len(ret.Results) == 1 {
+				v := ast.NewIdent("_vissued")
+				fd.Body.List = []ast.Stmt{
+					&ast.AssignStmt{Lhs: []ast.Expr{v}, Tok: token.DEFINE, Rhs: []ast.Expr{ret.Results[0]}},
+					&ast.ExprStmt{X: shimCall("vrt", "OnIssue", v)},
+					&ast.ReturnStmt{Results: []ast.Expr{v}},
+				}
+				rw.hit("point", "vrt")
+			}
+		}
 	}
 }
 
